@@ -12,6 +12,7 @@ import (
 	"github.com/bronlabs/bron-crypto/pkg/encryption/paillier"
 	"github.com/bronlabs/bron-crypto/pkg/mpc"
 	mpcbls "github.com/bronlabs/bron-crypto/pkg/mpc/signatures/bls"
+	"github.com/bronlabs/bron-crypto/pkg/mpc/signatures/ecdsa/lindell17"
 	"github.com/bronlabs/bron-crypto/pkg/mpc/signatures/ecdsa/dkls23"
 	mpcschnorr "github.com/bronlabs/bron-crypto/pkg/mpc/signatures/schnorr"
 	"github.com/bronlabs/bron-crypto/pkg/signatures/ecdsa"
@@ -25,6 +26,7 @@ type (
 	c12DklsShard    = dkls23.Shard[*k256.Point, *k256.BaseFieldElement, *k256.Scalar]
 	c12SchnorrShard = mpcschnorr.Shard[*k256.Point, *k256.Scalar]
 	c12BlsShard     = mpcbls.Shard[g1, g1f, g2, g2f, gt, bsc]
+	c12L17Shard     = lindell17.Shard[*k256.Point, *k256.BaseFieldElement, *k256.Scalar]
 )
 
 func c12BaseOf[E algebra.PrimeGroupElement[E, S], S algebra.PrimeFieldElement[S]](alt *c12Alt, r *Rng, g algebra.PrimeGroup[E, S]) (*mpc.BaseShard[E, S], error) {
@@ -56,7 +58,7 @@ func init() {
 			if err != nil {
 				return err
 			}
-			if !w.Equal(v) || !w.PublicKey().Value().Equal(v.PublicKeyValue()) {
+			if !w.Equal(v) || !w.PublicKeyValue().Equal(v.PublicKeyValue()) {
 				return errC12("re-constructed shard differs")
 			}
 			return nil
@@ -97,7 +99,7 @@ func init() {
 	altB := &c12Alt{}
 	c12Register(c12Case[*c12BlsShard]{
 		name:   "bls.Shard/bls12381g1",
-		weight: 3,
+		weight: 5,
 		fam:    famB,
 		gen: func(r *Rng) (*c12BlsShard, error) {
 			b, err := c12BaseOf[g1, bsc](altB, r, cBLSG1)
@@ -118,8 +120,55 @@ func init() {
 			if !w.Equal(v) {
 				return errC12("re-constructed shard differs")
 			}
-			if pk := v.PublicKey(); pk == nil || !pk.Value().Equal(v.PublicKeyValue()) {
+			// NewShortKeyShard admits an identity public key; PublicKey() is then nil for both
+			pv, pw := v.PublicKey(), w.PublicKey()
+			if (pv == nil) != (pw == nil) || (pv != nil && !pv.Value().Equal(v.PublicKeyValue())) {
 				return errC12("public key differs from the public material")
+			}
+			return nil
+		},
+	})
+
+	// Lindell17 shard (thorough tier only: a deal generates one 3072-bit Paillier key per party).
+	// One deal per run; the values are the shards of the different holders.
+	var l17 []*c12L17Shard
+	c12Register(c12Case[*c12L17Shard]{
+		name:         "lindell17.Shard/k256",
+		weight:       12,
+		fam:          famK,
+		thoroughOnly: true,
+		gen: func(r *Rng) (*c12L17Shard, error) {
+			if l17 == nil {
+				ac, err := c12GenThreshold(r)
+				if err != nil {
+					return nil, err
+				}
+				m, cls := runLindell17Deal(cK256, ac, 3072, r)
+				if cls != "ok" {
+					return nil, errC12("lindell17 deal: " + cls)
+				}
+				for _, id := range sortedIDs(c12MapKeys(m)) {
+					l17 = append(l17, m[id])
+				}
+			}
+			return l17[r.IntN(len(l17))], nil
+		},
+		equal: func(a, b *c12L17Shard) bool { return a.Equal(b) && a.Share().Equal(b.Share()) },
+		valid: func(v *c12L17Shard) error {
+			if err := c12ValidShard(cK256, &v.BaseShard); err != nil {
+				return err
+			}
+			w, err := lindell17.NewShard(&v.BaseShard, &v.AuxiliaryInfo)
+			if err != nil {
+				return err
+			}
+			if !w.Equal(v) {
+				return errC12("re-constructed shard differs")
+			}
+			for _, pk := range v.PaillierPublicKeys().Values() {
+				if pk == nil || pk.Group() == nil || pk.Group().N().Big().BitLen() < 3072 {
+					return errC12("peer Paillier key below the size floor")
+				}
 			}
 			return nil
 		},
@@ -212,4 +261,12 @@ func init() {
 			return nil
 		},
 	})
+}
+
+func c12MapKeys[K comparable, V any](m map[K]V) []K {
+	out := make([]K, 0, len(m))
+	for k := range m {
+		out = append(out, k)
+	}
+	return out
 }
